@@ -88,7 +88,12 @@ pub fn grammar(rng: &mut Rng, idx: u64) -> GCase {
             let gen = RxGen { allow_algebra: true, allow_raw_not: false, max_depth: 3 };
             let rx = gen_nonempty(rng, &gen);
             let t = rx.to_lark_term(rng);
-            GCase::lark(&format!("genterm{idx}"), &format!("start: T\nT: {t}\n")).tag("gen_term")
+            let g = GCase::lark(&format!("genterm{idx}"), &format!("start: T\nT: {t}\n")).tag("gen_term");
+            if rx.has_not() {
+                g.tag("regex_complement")
+            } else {
+                g
+            }
         }
         5..=7 => crate::gen_json::random_schema_case(rng, idx),
         _ => crate::gen_cfg::random_cfg_case(rng, idx),
